@@ -154,6 +154,13 @@ theorem norm_denorm (k : Kind) (p : Par ℝ) (y : ℝ) (hy : Image k p y) :
 example : Image .manly (⟨-2, 0⟩ : Par ℝ) 0.25 :=
   (valid_denorm_manly _ _).mpr (Or.inr (by norm_num))
 
+/-- `Image` is exactly the image of the valid input range under `_normalize` -/
+theorem image_exact (k : Kind) (p : Par ℝ) (y : ℝ) :
+    Image k p y ↔ ∃ x, valid (normRange k p) x = true ∧ normRaw k p x = y := by
+  constructor
+  · intro h; exact ⟨denormRaw k p y, norm_denorm_raw k p y h⟩
+  · rintro ⟨x, hx, rfl⟩; exact (range_image k p x hx).2
+
 /-- The statement "`normalize ∘ denormalize = id` on the DECLARED `denormalize_range`" is false for
     YeoJohnson: `lmbda = -1`, `y = 2` is inside the declared range `(-inf, inf)` but outside the image
     `(-inf, 1)`; the code returns `(-1)^(-1) - 1 = -2`, and `normalize(-2) = -26/3`. -/
@@ -225,7 +232,7 @@ def ExactBranches (k : Kind) (p : Par ℝ) : Prop :=
     `lmbda` outside the `isclose` bands and for the exact special values `0` / `2`.  (Inside a band with
     `lmbda ≠ c` the code switches the transform to the limit form but keeps `lmbda` in the derivative:
     see `derivative_band_boxCox`, `derivative_band_manly`.) -/
-theorem derivative_correct (k : Kind) (p : Par ℝ) (x : ℝ) (hx : valid (normRange k p) x = true)
+theorem derivative_partial (k : Kind) (p : Par ℝ) (x : ℝ) (hx : valid (normRange k p) x = true)
     (he : ExactBranches k p) : HasDerivAt (normRaw k p) (derivRaw k p x) x := by
   cases k
   case identity =>
@@ -261,6 +268,32 @@ theorem derivative_correct (k : Kind) (p : Par ℝ) (x : ℝ) (hx : valid (normR
     exact G_hasDerivAt (h0 p) (h0 p) (fun _ => he.1) (fun _ => he.1)
   case manly => exact manly_hasDerivAt p x he.1
 
+/-- the reported derivative is positive on the valid input range (for every parameter value, also inside
+    the bands), so `log (derivative)` in the likelihood is defined and `np.maximum(1e-16, ·)` only guards
+    against underflow -/
+theorem derivative_pos (k : Kind) (p : Par ℝ) (x : ℝ) (hx : valid (normRange k p) x = true) :
+    0 < derivRaw k p x := by
+  cases k
+  case identity =>
+    have : derivRaw .identity p x = 1 := by simp only [derivRaw]; norm_num
+    rw [this]; exact one_pos
+  case logNormal =>
+    have hx' := (valid_norm_logNormal p x).mp hx
+    simp only [derivRaw, rpow_real]; exact Real.rpow_pos_of_pos hx' _
+  case boxCox =>
+    have hx' := (valid_norm_boxCox p x).mp hx
+    simp only [derivRaw, rpow_real]; exact Real.rpow_pos_of_pos hx' _
+  case boxCoxShift =>
+    have hx' := (valid_norm_boxCoxShift p x).mp hx
+    simp only [derivRaw, rpow_real]; exact Real.rpow_pos_of_pos hx' _
+  case yeoJohnson =>
+    simp only [derivRaw, rpow_real, fabs_real]
+    exact Real.rpow_pos_of_pos (by have := abs_nonneg x; push_cast; linarith) _
+  case modulus =>
+    simp only [derivRaw, rpow_real, fabs_real]
+    exact Real.rpow_pos_of_pos (by have := abs_nonneg x; push_cast; linarith) _
+  case manly => simp only [derivRaw, exp_real]; exact Real.exp_pos _
+
 /-- `ExactBranches` holds for every `lmbda` outside the two bands … -/
 theorem exactBranches_of_outside (k : Kind) (p : Par ℝ) (h0 : 1e-8 < |p.lmbda|)
     (h2 : 1e-8 + 2e-5 < |p.lmbda - 2|) : ExactBranches k p := by
@@ -290,6 +323,48 @@ theorem derivative_band_boxCox (p : Par ℝ) (x : ℝ) (hx : 0 < x) (hc : c0 p =
 theorem derivative_band_manly (p : Par ℝ) (x : ℝ) (hc : c0 p = true) :
     HasDerivAt (normRaw .manly p) 1 x ∧ derivRaw .manly p x = Real.exp (x * p.lmbda) :=
   ⟨manly_hasDerivAt_band p x hc, by simp [derivRaw]⟩
+
+/-- the unrestricted statement "for every parameter value the reported derivative is the true derivative" -/
+def derivative_full : Prop :=
+  ∀ (k : Kind) (p : Par ℝ) (x : ℝ), valid (normRange k p) x = true →
+    HasDerivAt (normRaw k p) (derivRaw k p x) x
+
+/-- … is false of the code inside an `isclose` band: Manly with `lmbda = 1e-9` normalises with the identity
+    (true derivative `1`) but reports `exp(1e-9 · x)`; at `x = 1` that is `≠ 1`.  (Replayed on the
+    implementation by the search: `Manly(lmbda=1e-9).derivative([1.0]) = 1.000000001`.) -/
+theorem derivative_full_false : ¬ derivative_full := by
+  intro h
+  have hc : c0 (⟨1e-9, 0⟩ : Par ℝ) = true := (c0_iff _).mpr (by norm_num [abs_of_pos])
+  have h1 := h .manly ⟨1e-9, 0⟩ 1 (valid_full _)
+  have h2 := (derivative_band_manly ⟨1e-9, 0⟩ 1 hc).1
+  have e := h1.unique h2
+  rw [(derivative_band_manly ⟨1e-9, 0⟩ 1 hc).2, Real.exp_eq_one_iff] at e
+  norm_num at e
+
+/-- the bands themselves: `np.isclose(lmbda, 0)` is `|lmbda| ≤ 1e-8`, `np.isclose(lmbda, 2)` is
+    `|lmbda - 2| ≤ 1e-8 + 2e-5` -/
+theorem isclose_bands (p : Par ℝ) :
+    (c0 p = true ↔ |p.lmbda| ≤ 1e-8) ∧ (c2 p = true ↔ |p.lmbda - 2| ≤ 1e-8 + 2e-5) :=
+  ⟨c0_iff p, c2_iff p⟩
+
+/-- inside the band around `0` every class except YeoJohnson behaves exactly like `lmbda = 0` … -/
+theorem band_eq_special (k : Kind) (p : Par ℝ) (hk : k ≠ .yeoJohnson) (hc : c0 p = true) (x : ℝ) :
+    normRaw k p x = normRaw k ⟨0, p.shift⟩ x ∧ denormRaw k p x = denormRaw k ⟨0, p.shift⟩ x := by
+  have hc' : c0 (⟨0, p.shift⟩ : Par ℝ) = true := c0_of_eq rfl
+  cases k <;> first | exact absurd rfl hk | simp [normRaw, denormRaw, hc, hc']
+
+/-- … so there the true derivative is the one reported for `lmbda = 0`, not the reported `derivRaw k p x`
+    (which keeps the non-zero `lmbda`; the relative gap is `O(lmbda)`, see `derivative_band_boxCox`) -/
+theorem derivative_band (k : Kind) (p : Par ℝ) (hk : k ≠ .yeoJohnson) (hc : c0 p = true) (x : ℝ)
+    (hx : valid (normRange k p) x = true) :
+    HasDerivAt (normRaw k p) (derivRaw k ⟨0, p.shift⟩ x) x := by
+  have hf : normRaw k p = normRaw k ⟨0, p.shift⟩ := by
+    funext z; exact (band_eq_special k p hk hc z).1
+  have hx' : valid (normRange k (⟨0, p.shift⟩ : Par ℝ)) x = true := by
+    cases k <;> exact hx
+  rw [hf]; exact derivative_partial k ⟨0, p.shift⟩ x hx' (exactBranches_zero k p.shift)
+
+example : c0 (⟨1e-9, 0⟩ : Par ℝ) = true := (c0_iff _).mpr (by norm_num [abs_of_pos])
 
 /-! ### C18_nan_and_out_of_range (law-free: any carrier, also `Float`) -/
 
@@ -363,5 +438,112 @@ theorem pipeline_apply_remove (k : Kind) (p : Par ℝ) (mean trend v : ℝ)
 
 example : Image .yeoJohnson (⟨0.5, 0⟩ : Par ℝ) (-3 + 1) :=
   image_full_yeoJohnson _ _ (by norm_num) (by norm_num)
+
+/-! ### C18_loglik_is_profile_mle -/
+
+/-- Gaussian log-density `log N(y; μ, v)` -/
+noncomputable def gaussLogPdf (μ v y : ℝ) : ℝ := -(1 / 2) * Real.log (2 * Real.pi * v) - (y - μ) ^ 2 / (2 * v)
+
+/-- the log-likelihood of data `d` under "`normalize(x)` is `N(μ, v)`": Gaussian log-density of the normalised
+    values plus the log-Jacobian `log (d normalize / dx)` (change of variables) -/
+noncomputable def logLikGauss (k : Kind) (p : Par ℝ) (μ v : ℝ) (d : List ℝ) : ℝ :=
+  (d.map fun x => gaussLogPdf μ v (normRaw k p x) + Real.log (derivRaw k p x)).sum
+
+/-- hypotheses under which the code's formula is meaningful: some data, non-degenerate normalised sample,
+    derivative not clipped by `np.maximum(1e-16, ·)` -/
+structure LikOK (k : Kind) (p : Par ℝ) (d : List ℝ) : Prop where
+  nonempty : d ≠ []
+  var_pos : 0 < var (d.map (normRaw k p))
+  not_clipped : ∀ x ∈ d, (1e-16 : ℝ) ≤ derivRaw k p x
+
+private theorem length_ne {d : List ℝ} (hn : d ≠ []) : (d.length : ℝ) ≠ 0 := by
+  simp only [ne_eq, Nat.cast_eq_zero, List.length_eq_zero_iff]; exact hn
+
+private theorem logLikGauss_eq (k : Kind) (p : Par ℝ) (μ v : ℝ) (d : List ℝ) :
+    logLikGauss k p μ v d =
+      d.length * (-(1 / 2) * Real.log (2 * Real.pi * v))
+        - (d.map fun x => (normRaw k p x - μ) ^ 2).sum / (2 * v)
+        + (d.map fun x => Real.log (derivRaw k p x)).sum := by
+  unfold logLikGauss gaussLogPdf
+  exact sum_gauss d (normRaw k p) (fun x => Real.log (derivRaw k p x)) _ μ v
+
+private theorem var_mul (k : Kind) (p : Par ℝ) (d : List ℝ) (hn : d ≠ []) :
+    (d.map fun x => (normRaw k p x - mean (d.map (normRaw k p))) ^ 2).sum
+      = d.length * var (d.map (normRaw k p)) := by
+  rw [var_eq, mean_eq, List.map_map, List.length_map]
+  have hl := length_ne hn
+  have : ∀ a : ℝ, (d.length : ℝ) * (a / d.length) = a := fun a => by field_simp
+  rw [this]; rfl
+
+private theorem model_jac (k : Kind) (p : Par ℝ) (d : List ℝ) (h : ∀ x ∈ d, (1e-16 : ℝ) ≤ derivRaw k p x) :
+    Model.Norm.sum (d.map fun x => Transc.log (fmax (1e-16:ℝ) (derivRaw k p x)))
+      = (d.map fun x => Real.log (derivRaw k p x)).sum := by
+  rw [sum_eq]; congr 1
+  apply List.map_congr_left; intro x hx
+  rw [fmax_of_le (h x hx)]; rfl
+
+/-- `loglikelihood` IS the Gaussian log-likelihood of the normalised data with the maximum-likelihood
+    estimates `μ̂ = mean`, `σ̂² = var` substituted, plus the Jacobian term -/
+theorem loglik_is_profile_mle (k : Kind) (p : Par ℝ) (d : List ℝ) (h : LikOK k p d) :
+    logLikRaw k p d =
+      logLikGauss k p (mean (d.map (normRaw k p))) (var (d.map (normRaw k p))) d := by
+  have hn := length_ne h.nonempty
+  have hv := h.var_pos
+  rw [logLikGauss_eq, var_mul k p d h.nonempty]
+  unfold logLikRaw kernelLLRaw
+  rw [model_jac k p d h.not_clipped]
+  simp only [log_real, pi_real, Nat.cast_ofNat, Nat.cast_one]
+  rw [Real.log_mul (by positivity) hv.ne']
+  have e : (d.length : ℝ) * var (d.map (normRaw k p)) / (2 * var (d.map (normRaw k p))) = d.length / 2 := by
+    field_simp
+  rw [e]
+  norm_num
+  ring
+
+/-- … and no other Gaussian `(μ, v)` gives the data a larger likelihood: the reported value is the maximum
+    of the likelihood over the nuisance parameters (profile likelihood of the normalizer parameters) -/
+theorem loglik_profile_max (k : Kind) (p : Par ℝ) (d : List ℝ) (h : LikOK k p d) (μ v : ℝ) (hv : 0 < v) :
+    logLikGauss k p μ v d ≤ logLikRaw k p d := by
+  rw [loglik_is_profile_mle k p d h, logLikGauss_eq, logLikGauss_eq, var_mul k p d h.nonempty]
+  have hn : (0:ℝ) < d.length := lt_of_le_of_ne (Nat.cast_nonneg _) (Ne.symm (length_ne h.nonempty))
+  have hV := h.var_pos
+  set V := var (d.map (normRaw k p)) with hVdef
+  -- squared deviations about μ dominate those about the mean
+  have hQ : (d.length : ℝ) * V ≤ (d.map fun x => (normRaw k p x - μ) ^ 2).sum := by
+    rw [sum_sq_dev_mean d (normRaw k p) μ h.nonempty]
+    have := var_mul k p d h.nonempty
+    rw [mean_eq, List.length_map] at this
+    rw [this]
+    have : 0 ≤ (d.length : ℝ) * ((d.map (normRaw k p)).sum / d.length - μ) ^ 2 := by positivity
+    linarith
+  have hlog : Real.log (V / v) ≤ V / v - 1 := Real.log_le_sub_one_of_pos (div_pos hV hv)
+  rw [Real.log_div hV.ne' hv.ne'] at hlog
+  have h2pi : (0:ℝ) < 2 * Real.pi := by positivity
+  rw [Real.log_mul h2pi.ne' hv.ne', Real.log_mul h2pi.ne' hV.ne']
+  have e : (d.length : ℝ) * V / (2 * V) = d.length / 2 := by field_simp
+  rw [e]
+  have hdiv : (d.length : ℝ) * V / (2 * v) ≤ (d.map fun x => (normRaw k p x - μ) ^ 2).sum / (2 * v) :=
+    div_le_div_of_nonneg_right hQ (by positivity)
+  have e2 : (d.length : ℝ) * V / (2 * v) = d.length / 2 * (V / v) := by field_simp
+  rw [e2] at hdiv
+  nlinarith [mul_le_mul_of_nonneg_left hlog (le_of_lt (half_pos hn))]
+
+/-- `kernel_loglikelihood` is `loglikelihood` without the additive constant `-n/2 (log 2π + 1)` -/
+theorem kernel_loglik (k : Kind) (p : Par ℝ) (d : List ℝ) :
+    logLikRaw k p d = kernelLLRaw k p d - d.length / 2 * (Real.log (2 * Real.pi) + 1) := by
+  simp only [logLikRaw, log_real, pi_real, Nat.cast_ofNat, Nat.cast_one]
+  norm_num; ring
+
+/-- the public functions evaluate the raw formulas on exactly the data that survive `_check_input` -/
+theorem loglik_checked (k : Kind) (p : Par ℝ) (xs : List ℝ) :
+    logLik k p xs = logLikRaw k p (xs.filter fun x => valid (normRange k p) x) ∧
+    kernelLL k p xs = kernelLLRaw k p (xs.filter fun x => valid (normRange k p) x) := ⟨rfl, rfl⟩
+
+example : LikOK .identity ⟨1, 0⟩ [0, 2] := by
+  refine ⟨by simp, ?_, ?_⟩
+  · rw [var_eq]; norm_num [normRaw]
+  · intro x _
+    have : derivRaw .identity (⟨1, 0⟩ : Par ℝ) x = 1 := by simp only [derivRaw]; norm_num
+    rw [this]; norm_num
 
 end GSV.Props.C18
